@@ -221,6 +221,6 @@ end
 def tarStream (fs : List FileRec) : Option Bytes :=
   match fs with
   | [] => none          -- `fs.Next()` returns io.EOF: an error
-  | f :: rest => (tarOne (fs.length + 1) f rest).map (·.1)
+  | f :: rest => (tarOne (2 * fs.length + 2) f rest).map (·.1)
 
 end Desync
